@@ -67,7 +67,7 @@ static void dumpDecls(std::ostream& os, const std::string& pre, declarations_t& 
     i = 0;
     for (auto& f : d.functions) {
         os << "F " << pre << "fun" << i << " " << f.uid.get_name() << " " << vh::tsexp(f.uid.get_type()) << " locals=" << f.variables.size()
-           << " body=" << (f.body ? vh::quote(f.body->str("")) : std::string("null")) << "\n";
+           << "\n";   // (Statement::str is not robust on bodies left behind by error recovery: not printed)
         ++i;
     }
     i = 0;
